@@ -1059,16 +1059,30 @@ fn eval_entry(e: &REntry, obj: &MObj) -> u8 {
                 .map(|m| eval_single(&inner_mod, m, fv))
                 .collect();
             let on_array = matches!(fv, Some(MVal::Arr(_)));
+            // A quantified list on an ARRAY field: the documentation does not say whether the
+            // members are counted per element or across elements. Both readings agree on one
+            // bound, and only that is asserted: the quantifier cannot hold unless enough *distinct
+            // members* are matched by the field at all (`sets` is each member against the whole
+            // field, i.e. existential over the elements for the kinds that look into arrays).
+            let bounded = |across: u8| -> u8 {
+                if across & T == 0 {
+                    ANY & !T
+                } else {
+                    ANY
+                }
+            };
             match e.kmod {
                 KeyMod::All => {
                     if on_array {
-                        ANY
+                        bounded(s_all(&sets))
                     } else {
                         s_all(&sets)
                     }
                 }
                 KeyMod::Of(n) => {
-                    if on_array {
+                    if on_array && n >= 1 {
+                        bounded(s_of(&sets, n))
+                    } else if on_array {
                         ANY
                     } else {
                         s_of(&sets, n)
